@@ -44,6 +44,8 @@ def make_opcode(spec, p, created):
         return fickle.Get.create(spec[1])
     if k == "int":
         return fickle.Int(spec[1])
+    if k == "clsarg":
+        return getattr(fickle, spec[1])(spec[2])
     if k == "proto":
         return fickle.Proto.create(spec[1])
     if k == "donor":
@@ -558,6 +560,19 @@ def main(tier, seed):
         al = alphabet(prefix_len(data))
         for seq in itertools.product(al, repeat=k):
             cases.append({"kind": "exh:" + kind, "hex": data.hex(), "actions": list(seq)})
+    # a replacement that is EQUAL to what it replaces without being the same program: True / 1, False / 0,
+    # 0.0 / -0.0 (seeded C14 r7: __setitem__ keeping the caches when class and `arg ==` agree)
+    import pickle as _pk
+    twins = [(_pk.dumps([True, False], protocol=0), 3, ["int", 1]),
+             (_pk.dumps([True, False], protocol=0), 5, ["int", 0]),
+             (asm.assemble([("BININT1", 1), "STOP"]), 0, ["clsarg", "BinInt1", True]),
+             (asm.assemble([("GLOBAL", ("verif_sink", "record")), ("BINFLOAT", 0.0), "TUPLE1", "REDUCE", "STOP"]), 1,
+              ["clsarg", "BinFloat", -0.0]),
+             (asm.assemble([("BINFLOAT", -0.0), "STOP"]), 0, ["clsarg", "BinFloat", 0.0])]
+    for data, i, spec in twins:
+        for pre in (["read", "unparse"], ["read", "safety"], ["read", "has_import"]):
+            cases.append({"kind": "twin", "hex": data.hex(), "observe_all": True,
+                          "actions": [pre, ["setitem", i, spec], ["read", "unparse"], ["read", "safety"], ["read", "dumps"]]})
     chk.stats["exhaustive-histories"] = len(cases)
     for _ in range(nrand):
         r = rng.random()
